@@ -2,6 +2,7 @@
 find_state_change of pytezos.rpc.search (real code, `get` a Python closure over a piecewise-constant
 history) vs Client/Search.v, evaluated inside coqc; oracle (B): the list of state changes computed
 directly from the history."""
+import os
 import sys
 
 import lib
@@ -189,7 +190,8 @@ def run(ctx: lib.Ctx) -> None:
         add(History(w['default'], [tuple(x) for x in w['breakpoints']]), w['head'], w['last'], w['step'], w['default'], 'fixed-witness')
         ctx.corpus_cases += 1
 
-    import glob, json, os
+    import glob
+    import json
     for path in sorted(glob.glob(os.path.join(lib.VERIF, 'corpus', PROP, '*.json'))):
         for w in json.load(open(path)):
             add(History(w['default'], [tuple(x) for x in w['breakpoints']]), w['head'], w['last'], w['step'], w.get('pred', w['default']), 'corpus')
@@ -226,7 +228,7 @@ def run(ctx: lib.Ctx) -> None:
         head = last - ctx.rng.randint(0, 4)
         add(gen_history(ctx.rng, head - 3, last + 3, 'returning'), head, last, ctx.rng.randint(1, 5), ctx.rng.randint(0, 2), 'degenerate:head<=last')
 
-    bad = ctx.coq_mismatches('search', IMPORTS, 'run_case', 'obs_eqb', 'case', 'observation', cases, shard=400)
+    bad = ctx.coq_mismatches(f'search{os.getpid()}', IMPORTS, 'run_case', 'obs_eqb', 'case', 'observation', cases, shard=400)
 
     fails = []
     for idx, (h, head, last, step, pred, o) in enumerate(meta):
@@ -236,9 +238,15 @@ def run(ctx: lib.Ctx) -> None:
     fails.sort()
     for *_k, idx, why in fails[:3]:
         h, head, last, step, pred, o = meta[idx]
+        prev = None
+        if idx > 0:   # searches run one after another in one process: state kept between calls (a cache) shows up only after an earlier search
+            ph, phead, plast, pstep, _pp, _po = meta[idx - 1]
+            prev = {'head': phead, 'last': plast, 'step': pstep, 'history': {'default': ph.default, 'breakpoints': ph.segs}}
         ctx.violation(f'history search violated: {why}',
                       {'head': head, 'last': last, 'step': step, 'pred_value': pred, 'history': {'default': h.default, 'breakpoints': h.segs},
                        'reported': o['changes'][1], 'expected': true_changes(h, last, head), 'single_change_search': o['single'][1],
+                       'preceding_search_in_same_process': prev,
+                       'note': 'if the repro passes in a fresh process, run the preceding search first (state carried between calls)',
                        'repro': (f"from pytezos.rpc.search import find_state_changes; bp={h.segs!r}; "
                                  f"get=lambda x: ([{h.default}] + [v for s, v in bp if s <= x])[-1]; "
                                  f"print(list(find_state_changes({head}, {last}, get, lambda a, b: a == b, {step})))")})
